@@ -123,7 +123,12 @@ func config(f processor.Factory, in *Instance) *obf.Config {
 		cfg.EncryptAll = true
 		cfg.EncryptAttributes = nil
 	} else {
-		cfg.EncryptAll = false
+		// encrypt_attributes given: the list wins.  Half of the instances leave encrypt_all at its
+		// default (true), as a configuration file that only sets the list does; the other half
+		// switches it off explicitly.
+		if in.Inst%2 == 0 || len(in.Listed) == 0 {
+			cfg.EncryptAll = false
+		}
 		cfg.EncryptAttributes = append([]string{}, in.Listed...)
 	}
 	return cfg
